@@ -20,7 +20,7 @@ META = {
     "stubs": ["Taus.tau_energy / Taus.tau_exit_prob -> symbolic columns (covered by C04 / C05)", "np.log / np.exp -> Ackermannised, strictly monotone mutual inverses, log(1)=0", "np.sin of the emergence angle -> point on the unit circle with monotonicity on [-pi/2, pi/2]"],
     "assumptions": ["REAL mode", "reference constants: c = 299792.458 km/s, tau0 = 2.903e-13 s, m_tau = 1.77686 GeV (PDG), compared within 1e-6 relative", "Earth radius: astropy R_earth in km as used by the code"],
 }
-LEDGER = {"quick": 78, "thorough": 90}
+LEDGER = {"quick": 310, "thorough": 90}
 C_KM_S = Fr(299792458, 1000)
 TAU0 = Fr(2903, 10**16)
 MTAU = Fr(177686, 100000)
@@ -383,6 +383,6 @@ def validate(seed, tier):
 
 MANIFEST_ENTRY = {
     "level_text": "Bounded symbolic execution of the real Taus.__call__ (energy/exit-probability kernels stubbed by symbolic columns) and the real EAS.altDec with tau energy, etau_frac, emergence angle (symbolic angle in [0,42 deg]), speed, Lorentz factor and u in (0,1] symbolic: nlsat proves gamma = E/m_tau >= 1, speed = sqrt(1-1/gamma^2) in (0,1), shower energy = f E/1e8, decay length = -gamma beta c tau0 ln u against reference constants (1e-6), its sign, strict monotonicity in u and the exponential law, altitude = |R e_r + l d(beta)| - R from explicit vectors, non-negativity and monotonicity in length and angle. The precondition E > m_tau is decided over every cell of the three shipped CDF tables by z3 queries with a symbolic cell index, and a chain job runs the real Taus.__call__ with the REAL tau_energy (sampler on a symbolic 2x2 table cell) for every regime of the emergence angle -- below the table, exactly ON the first / last tabulated angle, inside, above -- proving that every sampled tau gets at least the smallest tabulated fraction of the neutrino energy, hence gamma >= 1 and 0 < speed < 1.",
-    "level_note": "REAL arithmetic; log/exp Ackermannised with inverse/monotonicity axioms; sin/cos of the emergence angle as a unit-circle point with monotonicity on [-pi/2, pi/2]; N <= 2; u = 0 outside the quantifier.",
+    "level_note": "REAL arithmetic; log/exp Ackermannised with inverse/monotonicity axioms; sin/cos of the emergence angle as a unit-circle point with monotonicity on [-pi/2, pi/2]; N <= 2 (the chain job with the real tau_energy runs N = 1 and N = 2 in both tiers: a batch mixing a non-exiting tau with a sampled one needs two events); u = 0 outside the quantifier.",
     "technique": "symbolic execution of the real NumPy source + z3 qfnra-nlsat (Ackermannised log/exp, algebraised trigonometry); z3 table queries",
 }
